@@ -33,6 +33,7 @@ RULE = ('Hypothesis-generated name sets built from families (explicit short/odd 
         'non-trivial = a set of >= 50 entries with >= 1 absent by-name probe whose raw cmph value is < n_local_entries, '
         'i.e. the perfect hash sends it to the slot of another entry and only the final string comparison rejects it '
         '(the raw value is printed by the driver); distinct = hash of the case')
+RULE = RULE + ' ' + 'Each driver script carries a history derived from the case: the GTypes are asked for after the dependency but before the namespace is loaded (pre-load miss), and the namespace is loaded eagerly or with G_IREPOSITORY_LOAD_FLAG_LAZY.'
 ASSUMPTIONS = [
     'names, GType names and get-type symbols are limited to [A-Za-z0-9_-] and < 2048 characters because g-ir-compiler '
     'validates its own output with that rule (g_typelib_validate); error-domain strings are free text',
